@@ -38,7 +38,10 @@ LEAN = dict(
     extra_modules=["LeaspyVerif.Model.Dag"],
     theorems=["order_topological", "order_perm_nodes", "children_exact", "ancestors_exact",
               "children_in_order", "ancestors_in_order", "accepts_iff", "refused_input_iff", "refused_value_iff",
-              "loop_terminates", "deterministic"],
+              "loop_terminates", "deterministic",
+              "order_nodup", "children_ancestors_nodup", "children_ancestors_dual", "not_self_dependent",
+              "children_transitive", "direct_dependency_reported", "children_after_ancestors_before",
+              "first_is_root_last_is_leaf", "children_ancestors_unique"],
     trusted_extra=["python string ordering of node names = rank used by the model (names are ranked by the harness with python's sorted())"],
     assumptions=["direct ancestors are sets (frozenset in the code): the harness sends de-duplicated ancestor lists"],
 )
